@@ -74,7 +74,7 @@ Txs   == 1..MaxTx
 VARIABLES
   chain,     \* sequence of tags: chain[n+1] is the block at height n
   blk,       \* [Tags -> [h, p, txs]]: height, parent tag (0 for genesis), transactions; h = -1: unused
-  nTag, nTx, nRev, nL1, nPc, nGw, nRecv,
+  nTag, nTx, nRev, nL1, nPc, nGw, nRecv, nTick,
   l1,        \* L1 head number, -1: none
   pc,        \* the pre-confirmed block the poller last applied: [num, rid, txs]
   gw,        \* [Txs -> 0 (unknown) | 1 (RECEIVED) | 2 (CANDIDATE)]: what the gateway says
@@ -89,8 +89,8 @@ VARIABLES
   req,       \* [Conns -> 0 | s]: an Unsubscribe(s) waiting for the goroutine
   act, res
 
-vars == <<chain, blk, nTag, nTx, nRev, nL1, nPc, nGw, nRecv, l1, pc, gw, orph, reorg, notify, tee, slot, sub, got, open, req, act, res>>
-view == <<chain, blk, nTag, nTx, nRev, nL1, nPc, nGw, nRecv, l1, pc, gw, orph, reorg, notify, tee, slot, sub, got, open, req>>
+vars == <<chain, blk, nTag, nTx, nRev, nL1, nPc, nGw, nRecv, nTick, l1, pc, gw, orph, reorg, notify, tee, slot, sub, got, open, req, act, res>>
+view == <<chain, blk, nTag, nTx, nRev, nL1, nPc, nGw, nRecv, nTick, l1, pc, gw, orph, reorg, notify, tee, slot, sub, got, open, req>>
 
 -----------------------------------------------------------------------------
 Fr(k, a, b, c, d) == [k |-> k, a |-> a, b |-> b, c |-> c, d |-> d]
@@ -106,7 +106,7 @@ RECEIVED == 1  CANDIDATE == 2  PRECONF == 3  L2 == 4  L1F == 5
 FreeSub == [st |-> "free", kind |-> "none", conn |-> 0, bid |-> [k |-> "latest", n |-> 0], flt |-> FALSE,
             fl2 |-> FALSE, flp |-> FALSE, flr |-> FALSE, tx |-> 0,
             start |-> 0, last |-> 0, t0 |-> 0, tl |-> 0, l1at |-> -1, mode |-> "none", cur |-> 0, pend |-> NoFr, todo |-> <<>>,
-            canc |-> FALSE, lastst |-> 0, ded |-> NoDed, nextb |-> 0, ticks |-> 0]
+            canc |-> FALSE, lastst |-> 0, ded |-> NoDed, nextb |-> 0]
 
 Height == Len(chain) - 1
 TagAt(n) == chain[n + 1]
@@ -167,11 +167,15 @@ Advance(r) ==
   IF r.todo # <<>> THEN
     IF r.canc /\ r.kind = "events" THEN Dead(r)                 \* the event loops look at ctx before every send
     ELSE [r EXCEPT !.pend = Head(r.todo), !.todo = Tail(r.todo)]
-  ELSE IF r.mode = "hist" /\ r.kind = "heads" THEN
+  ELSE IF r.mode = "hist" /\ r.kind = "heads" /\ Ver >= 9 THEN          \* for n := start; n <= latest; n++ { ctx?; read; send }
     IF r.cur > r.last THEN [r EXCEPT !.mode = "live"]
     ELSE IF r.canc THEN Dead(r)
-    ELSE IF Ver = 8 /\ r.cur = r.start THEN [r EXCEPT !.pend = HeadFr(r.t0, r.t0), !.cur = r.cur + 1]   \* header resolved by the request
     ELSE IF ~Has(r.cur) THEN Dead(r)                            \* BlockHeaderByNumber fails: the subscription ends
+    ELSE [r EXCEPT !.pend = HeadFr(TagAt(r.cur), TagAt(r.cur)), !.cur = r.cur + 1]
+  ELSE IF r.mode = "hist" /\ r.kind = "heads" THEN                       \* v8: for { ctx?; send cur; if cur.Number == latest.Number return; cur = read(cur+1) }
+    IF r.cur > r.start /\ r.cur - 1 = r.last THEN [r EXCEPT !.mode = "live"]
+    ELSE IF r.cur = r.start THEN (IF r.canc THEN Dead(r) ELSE [r EXCEPT !.pend = HeadFr(r.t0, r.t0), !.cur = r.cur + 1])   \* the header the request resolved
+    ELSE IF ~Has(r.cur) \/ r.canc THEN Dead(r)                  \* past the end of the chain (start above the stale latest): ends
     ELSE [r EXCEPT !.pend = HeadFr(TagAt(r.cur), TagAt(r.cur)), !.cur = r.cur + 1]
   ELSE IF r.mode = "hist" THEN [r EXCEPT !.mode = "live"]
   ELSE r
@@ -192,7 +196,7 @@ DedReset(d, num, rid) == IF d.num # num \/ d.rid # rid THEN [num |-> num, rid |-
 Init ==
   /\ chain = [i \in 1..InitLen |-> i]
   /\ blk = [t \in Tags |-> IF t <= InitLen THEN [h |-> t - 1, p |-> t - 1, txs |-> <<>>] ELSE NoBlk]
-  /\ nTag = InitLen /\ nTx = 0 /\ nRev = 0 /\ nL1 = 0 /\ nPc = 0 /\ nGw = 0 /\ nRecv = 0
+  /\ nTag = InitLen /\ nTx = 0 /\ nRev = 0 /\ nL1 = 0 /\ nPc = 0 /\ nGw = 0 /\ nRecv = 0 /\ nTick = 0
   /\ l1 = StartAtL1 /\ pc = NoP /\ gw = [t \in Txs |-> 0] /\ orph = <<>>
   /\ reorg = NoR /\ notify = <<>>
   /\ tee = [h |-> 0, r |-> NoR, p |-> NoP, l |-> -1]
@@ -215,7 +219,7 @@ EnvOK == ~NoLag \/ CaughtUp
 SubOK == ~QuietSub \/ (notify = <<>> /\ TeeEmpty)
 OrderOK(s) == ~ReorgPrio \/ (slot[s].r = NoR /\ tee.r = NoR /\ \A i \in 1..Len(notify) : notify[i].f # "r")
 
-UNCH_ENV == UNCHANGED <<chain, blk, nTag, nTx, nRev, nL1, nPc, nGw, nRecv, l1, pc, gw, orph, reorg, notify>>
+UNCH_ENV == UNCHANGED <<chain, blk, nTag, nTx, nRev, nL1, nPc, nGw, nRecv, nTick, l1, pc, gw, orph, reorg, notify>>
 UNCH_CHAIN == UNCHANGED <<chain, blk, nTag, nRev, orph, reorg>>
 
 -----------------------------------------------------------------------------
@@ -230,6 +234,7 @@ Store(content) ==
      IN /\ content = "fresh" => nTx < MaxTx
         /\ content = "pc" => (PcVisible /\ pc.txs # <<>>)
         /\ content = "orph" => orph # <<>>
+        /\ \A i \in 1..Len(txs) : TxAt(txs[i]) = {}
         /\ nTx' = IF content = "fresh" THEN nTx + 1 ELSE nTx
         /\ blk' = [blk EXCEPT ![t] = [h |-> Len(chain), p |-> chain[Len(chain)], txs |-> txs]]
         /\ chain' = Append(chain, t) /\ nTag' = t
@@ -238,7 +243,7 @@ Store(content) ==
         /\ reorg' = NoR
         /\ act' = [name |-> "Store", tag |-> t, h |-> Len(chain), txs |-> txs]
   /\ res' = [kind |-> "ok"]
-  /\ UNCHANGED <<nRev, nL1, nPc, nGw, nRecv, l1, pc, gw, tee, slot, sub, got, open, req>>
+  /\ UNCHANGED <<nRev, nL1, nPc, nGw, nRecv, nTick, l1, pc, gw, tee, slot, sub, got, open, req>>
 
 Revert ==
   /\ EnvOK /\ notify = <<>> /\ nRev < MaxReverts /\ Len(chain) > 1
@@ -248,7 +253,7 @@ Revert ==
      /\ orph' = blk[t].txs
      /\ act' = [name |-> "Revert", tag |-> t]
   /\ nRev' = nRev + 1 /\ res' = [kind |-> "ok"]
-  /\ UNCHANGED <<blk, nTag, nTx, nL1, nPc, nGw, nRecv, l1, pc, gw, notify, tee, slot, sub, got, open, req>>
+  /\ UNCHANGED <<blk, nTag, nTx, nL1, nPc, nGw, nRecv, nTick, l1, pc, gw, notify, tee, slot, sub, got, open, req>>
 
 (* Feed.Send into the handler's Tee subscription (plain: dropped when its slot is full); with
    TeeStage = FALSE the Tee goroutine forwards at once: every listening subscription's keep-last
@@ -276,7 +281,7 @@ SyncSend ==
      /\ IF m.f = "h" THEN SendOn("h", m.h) ELSE SendOn("r", m.r)
      /\ act' = [name |-> "SyncSend", f |-> m.f]
   /\ notify' = Tail(notify) /\ res' = [kind |-> "ok"]
-  /\ UNCHANGED <<chain, blk, nTag, nTx, nRev, nL1, nPc, nGw, nRecv, l1, pc, gw, orph, reorg, sub, got, open, req>>
+  /\ UNCHANGED <<chain, blk, nTag, nTx, nRev, nL1, nPc, nGw, nRecv, nTick, l1, pc, gw, orph, reorg, sub, got, open, req>>
 
 TeeForward(f) ==
   /\ TeeStage /\ TeeVal(f) # TeeNone(f)
@@ -288,7 +293,7 @@ SetL1(n) ==
   /\ EnvOK /\ nL1 < MaxL1 /\ n > l1
   /\ l1' = n /\ nL1' = nL1 + 1 /\ SendOn("l", n)
   /\ act' = [name |-> "SetL1", n |-> n] /\ res' = [kind |-> "ok"]
-  /\ UNCHANGED <<chain, blk, nTag, nTx, nRev, nPc, nGw, nRecv, pc, gw, orph, reorg, notify, sub, got, open, req>>
+  /\ UNCHANGED <<chain, blk, nTag, nTx, nRev, nPc, nGw, nRecv, nTick, pc, gw, orph, reorg, notify, sub, got, open, req>>
 
 (* the poller: AdvanceTo(height+1); a full block opens a new round at height+1, a delta appends
    to the current round; what ApplyUpdate returns is published *)
@@ -298,26 +303,26 @@ PcFull(withTx) ==
   /\ nTx' = IF withTx THEN nTx + 1 ELSE nTx
   /\ nPc' = nPc + 1 /\ SendOn("p", pc')
   /\ act' = [name |-> "PcFull", num |-> pc'.num, rid |-> pc'.rid, txs |-> pc'.txs] /\ res' = [kind |-> "ok"]
-  /\ UNCHANGED <<chain, blk, nTag, nRev, nL1, nGw, nRecv, l1, gw, orph, reorg, notify, sub, got, open, req>>
+  /\ UNCHANGED <<chain, blk, nTag, nRev, nL1, nGw, nRecv, nTick, l1, gw, orph, reorg, notify, sub, got, open, req>>
 
 PcDelta ==
   /\ EnvOK /\ nPc < MaxPc /\ nTx < MaxTx /\ PcVisible /\ Len(pc.txs) < 2
   /\ pc' = [pc EXCEPT !.txs = Append(@, nTx + 1)]
   /\ nTx' = nTx + 1 /\ nPc' = nPc + 1 /\ SendOn("p", pc')
   /\ act' = [name |-> "PcDelta", num |-> pc.num, rid |-> pc.rid, txs |-> <<nTx + 1>>, base |-> Len(pc.txs)] /\ res' = [kind |-> "ok"]
-  /\ UNCHANGED <<chain, blk, nTag, nRev, nL1, nGw, nRecv, l1, gw, orph, reorg, notify, sub, got, open, req>>
+  /\ UNCHANGED <<chain, blk, nTag, nRev, nL1, nGw, nRecv, nTick, l1, gw, orph, reorg, notify, sub, got, open, req>>
 
 (* the gateway learns of a transaction (RECEIVED), then schedules it (CANDIDATE) *)
 Gw(t) ==
   /\ EnvOK /\ nGw < MaxGw /\ gw[t] < CANDIDATE
   /\ gw' = [gw EXCEPT ![t] = @ + 1] /\ nGw' = nGw + 1
   /\ act' = [name |-> "Gw", t |-> t, st |-> gw[t] + 1] /\ res' = [kind |-> "ok"]
-  /\ UNCHANGED <<chain, blk, nTag, nTx, nRev, nL1, nPc, nRecv, l1, pc, orph, reorg, notify, tee, slot, sub, got, open, req>>
+  /\ UNCHANGED <<chain, blk, nTag, nTx, nRev, nL1, nPc, nRecv, nTick, l1, pc, orph, reorg, notify, tee, slot, sub, got, open, req>>
 
 (* the received-transaction feed (mempool / gateway submission): sent straight on the handler's feed *)
 Recv(t) ==
   /\ EnvOK /\ nRecv < MaxRecv /\ Ver >= 9
-  /\ slot' = Into(slot, "x", t) /\ nRecv' = nRecv + 1
+  /\ slot' = Into(slot, "x", t) /\ nRecv' = nRecv + 1 /\ UNCHANGED nTick
   /\ act' = [name |-> "Recv", t |-> t] /\ res' = [kind |-> "ok"]
   /\ UNCHANGED <<chain, blk, nTag, nTx, nRev, nL1, nPc, nGw, l1, pc, gw, orph, reorg, notify, tee, sub, got, open, req>>
 
@@ -331,6 +336,7 @@ SubResolve(s, c, kind, bid, flt, fl2, flp, flr, tx) ==
   /\ \A t \in Subs : t < s => sub[t].st # "free"
   /\ \A t \in Subs : sub[t].st # "resolved"
   /\ kind \in {"status", "txs"} => bid.k = "latest"
+  /\ bid.k = "hash" => (bid.n <= nTag \/ bid.n = MaxTag + 1)          \* a hash the client can know, or an unknown one
   /\ kind # "txs" => (~fl2 /\ ~flr)
   /\ kind \in {"heads", "status"} => (~flp /\ ~flt)
   /\ kind = "txs" => (fl2 \/ flp \/ flr)
@@ -406,10 +412,9 @@ OnItem(r, f, sl) ==
          ELSE [ok |-> TRUE, r |-> Emit(r, <<HeadFr(sl.h, sl.h)>>)]
     [] f = "h" /\ r.kind = "events" ->
          IF Ver = 8
-         THEN (IF blk[sl.h].h > Height THEN [ok |-> FALSE, r |-> r]            \* range above the head: no pre-confirmed reader in v8
-               ELSE LET fs == CanonEvents(r, r.nextb, blk[sl.h].h, FALSE) IN
-                    IF fs # <<>> /\ r.canc THEN [ok |-> FALSE, r |-> r]
-                    ELSE [ok |-> TRUE, r |-> Emit([r EXCEPT !.nextb = blk[sl.h].h + 1], fs)])
+         THEN LET fs == CanonEvents(r, r.nextb, blk[sl.h].h, FALSE) IN      \* re-read from the database: nextBlock..head.Number (as far as the chain goes now)
+              IF fs # <<>> /\ r.canc THEN [ok |-> FALSE, r |-> r]
+              ELSE [ok |-> TRUE, r |-> Emit([r EXCEPT !.nextb = blk[sl.h].h + 1], fs)]
          ELSE LET fs == EvFrames(r, sl.h, blk[sl.h].h, blk[sl.h].txs, L2) IN
               IF fs # <<>> /\ r.canc THEN [ok |-> FALSE, r |-> r] ELSE [ok |-> TRUE, r |-> Emit(r, fs)]
     [] f = "p" /\ r.kind = "events" ->
@@ -451,18 +456,22 @@ Exit(s) ==
   /\ act' = [name |-> "Exit", s |-> s] /\ res' = [kind |-> "ok"]
   /\ UNCH_ENV /\ UNCHANGED <<tee, got, open, req>>
 
-(* the status subscription's initial loop: one tick of its 1 s ticker; after 5 minutes it gives up *)
-Tick(s) ==
-  /\ Running(s) /\ sub[s].mode = "tick" /\ ~sub[s].canc /\ sub[s].ticks < MaxTicks
-  /\ LET c == Check([sub[s] EXCEPT !.mode = "live"]) IN
-     sub' = [sub EXCEPT ![s] = IF c.ok THEN c.r ELSE [sub[s] EXCEPT !.ticks = @ + 1]]
-  /\ act' = [name |-> "Tick", s |-> s] /\ res' = [kind |-> "ok"]
-  /\ UNCH_ENV /\ UNCHANGED <<tee, slot, got, open, req>>
+(* the status subscription's initial loop: the 1 s tickers of ALL waiting subscriptions fire (one
+   clock); after 5 minutes those that still find nothing give up *)
+Ticking(s) == Running(s) /\ sub[s].mode = "tick" /\ ~sub[s].canc
+Ticked(r) == LET c == Check([r EXCEPT !.mode = "live"]) IN IF c.ok THEN c.r ELSE r
+Tick ==
+  /\ nTick < MaxTicks /\ \E s \in Subs : Ticking(s)
+  /\ sub' = [s \in Subs |-> IF Ticking(s) THEN Ticked(sub[s]) ELSE sub[s]]
+  /\ nTick' = nTick + 1
+  /\ act' = [name |-> "Tick"] /\ res' = [kind |-> "ok"]
+  /\ UNCHANGED <<chain, blk, nTag, nTx, nRev, nL1, nPc, nGw, nRecv, l1, pc, gw, orph, reorg, notify, tee, slot, got, open, req>>
 
-TickTimeout(s) ==
-  /\ Running(s) /\ sub[s].mode = "tick" /\ ~sub[s].canc /\ StatusOf(sub[s].tx) = 0
-  /\ sub' = [sub EXCEPT ![s] = Dead(@)] /\ slot' = Clean(slot, sub')
-  /\ act' = [name |-> "TickTimeout", s |-> s] /\ res' = [kind |-> "ok"]
+TickTimeout ==
+  /\ \E s \in Subs : Ticking(s)
+  /\ sub' = [s \in Subs |-> IF Ticking(s) THEN (IF StatusOf(sub[s].tx) = 0 THEN Dead(sub[s]) ELSE Ticked(sub[s])) ELSE sub[s]]
+  /\ slot' = Clean(slot, sub')
+  /\ act' = [name |-> "TickTimeout"] /\ res' = [kind |-> "ok"]
   /\ UNCH_ENV /\ UNCHANGED <<tee, got, open, req>>
 
 (* ---- unsubscribe, close *)
@@ -505,7 +514,8 @@ Internal ==
   \/ SyncSend
   \/ \E f \in {"h", "r", "p", "l"} : TeeForward(f)
   \/ \E s \in Subs : \E f \in Feeds : Take(s, f)
-  \/ \E s \in Subs : Exit(s) \/ Tick(s) \/ TickTimeout(s)
+  \/ \E s \in Subs : Exit(s)
+  \/ Tick \/ TickTimeout
   \/ \E c \in Conns : UnsubDone(c)
 
 Client ==
@@ -522,11 +532,14 @@ Subscribe ==
    synchroniser's sends move (that is what the gate of the binding reaches); an events subscription
    admits no Revert there (assumption A2: the historical range then reaches into the pre-confirmed
    chain, which this model does not describe) *)
+WindowEnv ==
+  /\ Window /\ ~QuietSub /\ (\A s \in Subs : sub[s].st = "resolved" => sub[s].kind \in {"heads", "events"})
+  /\ \/ \E c \in {"empty", "fresh"} : Store(c)
+     \/ (\A s \in Subs : sub[s].st = "resolved" => sub[s].kind = "heads") /\ Revert
+
 Next ==
   IF InWindow
-  THEN \/ \E s \in Subs : SubRegister(s)
-       \/ Window /\ ~QuietSub /\ ( (\E c \in {"empty", "fresh"} : Store(c)) \/ SyncSend \/ (\E f \in {"h", "r"} : TeeForward(f))
-                      \/ ((\A s \in Subs : sub[s].st = "resolved" => sub[s].kind = "heads") /\ Revert) )
+  THEN (\E s \in Subs : SubRegister(s)) \/ WindowEnv \/ Internal
   ELSE Env \/ Internal \/ Client \/ Subscribe
 
 Spec == Init /\ [][Next]_vars
@@ -549,6 +562,9 @@ TypeOK ==
 (* nothing is delivered after the answer of the unsubscribe, nothing after the connection closed
    (action properties: the history of an ended subscription never grows) *)
 EndedIsSilent == [][\A s \in Subs : sub[s].st = "done" => got'[s] = got[s]]_vars
+
+(* a request is never answered with an internal error (FixL1None = FALSE: refuted on a node without an L1 head) *)
+NoInternalError == [][res'.kind = "error" => res'.code \in {24, 66, 68}]_vars
 
 (* the historical part of a heads subscription: the first frames are the headers of start..last
    in order, without gap or duplicate, as long as no reorg reaches into the range *)
@@ -640,6 +656,16 @@ WantEvents(r, n) == IF n > Height THEN <<>>
                     ELSE LET m == Sel(r, blk[TagAt(n)].txs) IN [i \in 1..Len(m) |-> <<TagAt(n), n, m[i]>>] \o WantEvents(r, n + 1)
 EventsComplete ==
   \A s \in Subs : (sub[s].kind = "events" /\ Settled(s)) => FoldEvents(got[s], 1, <<>>) = WantEvents(sub[s], sub[s].start)
+
+(* v8 re-reads nextBlock..head.Number from the database on every head: whatever the schedule, what
+   the client holds is complete up to the last head it handled (nothing is lost for good, the
+   missing tail comes with the next head) *)
+RECURSIVE WantEventsTo(_, _, _)
+WantEventsTo(r, n, to) == IF n > Height \/ n > to THEN <<>>
+                          ELSE LET m == Sel(r, blk[TagAt(n)].txs) IN [i \in 1..Len(m) |-> <<TagAt(n), n, m[i]>>] \o WantEventsTo(r, n + 1, to)
+EventsCaughtUpV8 ==
+  \A s \in Subs : (sub[s].kind = "events" /\ Ver = 8 /\ Settled(s)) =>
+     FoldEvents(got[s], 1, <<>>) = WantEventsTo(sub[s], sub[s].start, sub[s].nextb - 1)
 
 (* new transactions / receipts with ACCEPTED_ON_L2: exactly the matching transactions of the
    blocks stored after the subscription, in order, each once *)
